@@ -516,10 +516,20 @@ VITEMS = {"t": (2000, 2001, 2002), "p": ("p1", "p2", "p3"), "q": ("q1", "q2", "q
 VNAMES = {"t": "Time", "p": "Product", "q": "Quality"}
 
 
+# namesakes: a DIFFERENT dimension (other letter, other items) that carries the same name
+VTWIN = {"T": ("Time", "u", (2000, 2001, 2002)), "P": ("Product", "x", ("x1", "x2", "x3")), "Q": ("Quality", "y", ("y1", "y2", "y3"))}
+
+
 def VDS(letters):
     from flodym import Dimension, DimensionSet
 
-    return DimensionSet(dim_list=[Dimension(name=VNAMES[l], letter=l, items=list(VITEMS[l])) for l in letters])
+    dl = []
+    for l in letters:
+        if l in VTWIN:
+            dl.append(Dimension(name=VTWIN[l][0], letter=VTWIN[l][1], items=list(VTWIN[l][2])))
+        else:
+            dl.append(Dimension(name=VNAMES[l], letter=l, items=list(VITEMS[l])))
+    return DimensionSet(dim_list=dl)
 
 
 def run_validator_case(cls_name, own, role, other):
@@ -586,6 +596,25 @@ def run_failcompute_case(solver, fault, where, npr):
     case = dict(kind="failcompute", solver=solver, fault=fault, where=where, npr=npr)
     from flodym import Dimension, DimensionSet
 
+    if solver == "simple":
+        # a flow-driven stock whose time dimension cannot give interval lengths (two steps only / text items)
+        titems = [2000, 2001] if fault == "two-steps" else ["early", "mid", "late", "last"]
+        dims = DimensionSet(dim_list=[Dimension(name="Time", letter="t", items=titems), Dimension(name="Product", letter="p", items=[f"p{i+1}" for i in range(npr)])])
+        st0, s = attempt(lambda: flodym.SimpleFlowDrivenStock(dims=dims))
+        if st0 == "raised":
+            return "construction-refused", None
+        n_t = len(titems)
+        s.inflow.values[...] = 10.0 + np.arange(n_t * npr).reshape(n_t, npr)
+        s.outflow.values[...] = 7.5
+        s.stock.values[...] = 3.25
+        before = [a.values.copy() for a in (s.stock, s.inflow, s.outflow)]
+        st, info = attempt(lambda: s.compute())
+        if st != "raised":
+            return "compute-did-not-raise", None
+        for nm, b, a in zip(("stock", "inflow", "outflow"), before, [a.values for a in (s.stock, s.inflow, s.outflow)]):
+            if a.shape != b.shape or not np.array_equal(a, b, equal_nan=True):
+                return "fail", dict(case=case, tags=dict(kind="changed-on-error", op="compute"), what=f"SimpleFlowDrivenStock over time items {titems}: compute() raised ({info[:80]}) but changed the {nm} array")
+        return "failed-compute-changed-nothing", None
     dims = DimensionSet(dim_list=[Dimension(name="Time", letter="t", items=[2000, 2001, 2002, 2003], dtype=int), Dimension(name="Product", letter="p", items=[f"p{i+1}" for i in range(npr)])])
     cls = flodym.InflowDrivenDSM if solver == "inflow" else flodym.StockDrivenDSM
     kw = {} if solver == "inflow" else dict(solver=solver)
@@ -621,6 +650,9 @@ def failcompute_cases():
             for npr in (1, 2, 3):
                 for where in range(npr):
                     yield (solver, fault, where, npr)
+    for fault in ("two-steps", "text-time"):
+        for npr in (1, 2, 3):
+            yield ("simple", fault, 0, npr)
 
 
 def validator_cases():
@@ -632,6 +664,8 @@ def validator_cases():
                 for role in ("stock", "inflow", "outflow", "lifetime_model"):
                     for other in arrs:
                         yield (cls_name, own, role, other)
+                    for k in range(len(own)):  # one dimension replaced by a namesake with another letter and other items
+                        yield (cls_name, own, role, own[:k] + own[k].upper() + own[k + 1 :])
     for own in arrs:
         for other in arrs:
             yield ("NormalLifetime", own, "lm-parameter", other)
